@@ -64,6 +64,7 @@ CHECKS.update({
          'Codec behaviour is uninterpreted (the codecs themselves are outside the claim); to_slug for every string of up to 3 (4) characters over 0x00-0xFF.'),
 })
 NA = {
+ 'C09': 'not applicable to solver-based checking: the property observes object identity of the re-raised exception, its traceback and the interpreter\'s exception context; the only inputs are two booleans and a finite choice of handler-body shapes, so there is no value domain to make symbolic and every path would be one concrete interpreter run (enumeration, excluded as the deciding step); see DESIGN.md section 8',
 }
 def main():
     props = [json.loads(l) for l in open(os.path.join(V, 'properties.jsonl'))]
